@@ -19,6 +19,7 @@ pub enum Pending {
     Atomic { id: usize, load: bool },
     NextEnter,
     NextExit,
+    Probe,
 }
 
 #[derive(Debug, Clone, Copy, PartialEq)]
